@@ -55,7 +55,7 @@ def gen_cases(rng, tier):
     cases = []
     for i in range(n):
         r = rng.random()
-        jp, names = gen.ranked_profile(rng, ties=rng.random() < 0.7, weights="mixed")
+        jp, names = gen.ranked_profile(rng, ties=rng.random() < 0.7, weights="mixed", allow_large=True)
         if r < 0.4:
             cases.append({"kind": "score", "profile": jp, "vector": gen_vector(rng, len(names))})
         elif r < 0.5:
